@@ -223,7 +223,7 @@ impl<'c, KD: Kind, const N: usize> MapEng<'c, KD, N> {
                             cx.chk(P11, runs == want, "closure-count", || format!("{name}: closure ran {runs} time(s), expected {want}"));
                             if msub == 2 {
                                 if let Some((sr, sid)) = seen_key {
-                                    cx.chk(P11, sr == k && (!KD::TRACKED || sid == kid), "closure-key", || format!("or_insert_with_key passed key {sr} (#{sid}) to the closure, the entry key is {k} (#{kid})"));
+                                    cx.chk(P11, sr == k && (!KD::IDENT || sid == kid), "closure-key", || format!("or_insert_with_key passed key {sr} (#{sid}) to the closure, the entry key is {k} (#{kid})"));
                                 }
                             }
                             cx.add(S::entry_closure_runs, runs as u64);
@@ -239,7 +239,7 @@ impl<'c, KD: Kind, const N: usize> MapEng<'c, KD, N> {
                         // occupied behaviour
                         let cur = if msub == 4 { KD::vnorm(e.val ^ 0x0020_0000) } else { e.val };
                         if let Some(got) = rep.val {
-                            cx.chk(P11, got == cur && (!KD::TRACKED || rep.vid == e.vid), "value-ref", || format!("{name}: reference holds {got} (#{}) but the entry's current value is {cur} (#{})", rep.vid, e.vid));
+                            cx.chk(P11, got == cur && (!KD::IDENT || rep.vid == e.vid), "value-ref", || format!("{name}: reference holds {got} (#{}) but the entry's current value is {cur} (#{})", rep.vid, e.vid));
                             cx.bump(S::addr_checks);
                             cx.chk(P_ADDR.and(Prop::C11), slot.c.contains(rep.va, std::mem::size_of::<KD::V>()), "addr", || format!("{name}: returned reference points outside the map"));
                         }
@@ -250,7 +250,7 @@ impl<'c, KD: Kind, const N: usize> MapEng<'c, KD, N> {
                                 cx.chk(P_ADDR, slot.c.contains(rep.ka, std::mem::size_of::<KD::K>()), "addr", || format!("{name}: the key reference of an occupied entry points outside the map"));
                             }
                             cx.chk(P11, kr == k, "key", || format!("{name}: exposes key {kr}, expected {k}"));
-                            if KD::TRACKED && msub != 5 || KD::TRACKED && msub == 5 {
+                            if KD::IDENT && msub != 5 || KD::IDENT && msub == 5 {
                                 cx.chk(P12.and(Prop::C11), rep.kid == e.kid, "exposed-key-identity", || format!("{name}: exposes key object #{}, stored is #{}", rep.kid, e.kid));
                             }
                         }
@@ -263,13 +263,13 @@ impl<'c, KD: Kind, const N: usize> MapEng<'c, KD, N> {
                         }
                         match msub {
                             13 => {
-                                cx.chk(P11, rep.out_val == Some(e.val) && (!KD::TRACKED || rep.out_vid == e.vid), "return", || format!("occupied.insert returned {:?}, the old value was {}", rep.out_val, e.val));
+                                cx.chk(P11, rep.out_val == Some(e.val) && (!KD::IDENT || rep.out_vid == e.vid), "return", || format!("occupied.insert returned {:?}, the old value was {}", rep.out_val, e.val));
                                 ne = Ent { kid: e.kid, vid, val: v };
                                 slot.model.insert(k, ne);
                                 mutated = true;
                             }
                             14 | 15 => {
-                                cx.chk(P11, rep.out_val == Some(e.val) && (!KD::TRACKED || rep.out_vid == e.vid), "return", || format!("{name} returned {:?}, the stored value was {}", rep.out_val, e.val));
+                                cx.chk(P11, rep.out_val == Some(e.val) && (!KD::IDENT || rep.out_vid == e.vid), "return", || format!("{name} returned {:?}, the stored value was {}", rep.out_val, e.val));
                                 if slot.order.last() != Some(&k) {
                                     cx.bump(S::entry_occ_remove_nonlast);
                                     cx.bump(S::swap_removals);
@@ -294,7 +294,7 @@ impl<'c, KD: Kind, const N: usize> MapEng<'c, KD, N> {
                     } else {
                         // vacant behaviour
                         if let Some(kr) = rep.kraw {
-                            cx.chk(P11, kr == k && (!KD::TRACKED || rep.kid == kid), "key", || format!("{name}: exposes key {kr} (#{}), the supplied key is {k} (#{kid})", rep.kid));
+                            cx.chk(P11, kr == k && (!KD::IDENT || rep.kid == kid), "key", || format!("{name}: exposes key {kr} (#{}), the supplied key is {k} (#{kid})", rep.kid));
                         }
                         if inserts_if_vacant {
                             if full {
@@ -302,7 +302,7 @@ impl<'c, KD: Kind, const N: usize> MapEng<'c, KD, N> {
                             }
                             let want = if msub == 3 { KD::vnorm(0) } else { v };
                             if let Some(got) = rep.val {
-                                cx.chk(P11, got == want && (!KD::TRACKED || msub == 3 || rep.vid == vid), "value-ref", || format!("{name}: reference holds {got}, the inserted value is {want}"));
+                                cx.chk(P11, got == want && (!KD::IDENT || msub == 3 || rep.vid == vid), "value-ref", || format!("{name}: reference holds {got}, the inserted value is {want}"));
                                 cx.bump(S::addr_checks);
                                 cx.chk(P_ADDR.and(Prop::C11), slot.c.contains(rep.va, std::mem::size_of::<KD::V>()), "addr", || format!("{name}: returned reference points outside the map"));
                             }
